@@ -91,6 +91,15 @@ def make_long(i):
            "script": {"slow": [{"ok": {"op": "wrap"}, "delay": float(d if shape != "map" else max(1, d // 2))}],
                       "quick": [{"ok": {"op": "tag"}, "delay": 1.0}]},
            "functions": ["quick", "slow"], "config": cfg}
+    if rng.random() < 0.12:
+        # a synchronous (StartSyncExecution) EXPRESS execution that outlasts the front end's own waiting limit of half an
+        # hour: the caller is answered at the limit, the execution still ends once, when it ends
+        d = rng.choice([1795, 1800, 1801, 2400])
+        cfg.update(execution_ttl=3600, transport="asyncio", nodes=1)
+        definition = {"StartAt": "A", "States": {"A": {"Type": "Wait", "Seconds": d, "Next": "Z"}, "Z": after}}
+        scn = {"machines": {"m": {"definition": definition, "type": "EXPRESS"}},
+               "executions": [{"machine": "m", "input": {"k": 0}, "name": "s0", "at": 0.0, "via": "sync"}],
+               "script": {}, "functions": [], "config": cfg}
     return seed, scn
 
 
